@@ -75,7 +75,15 @@ fn main() {
                     std::process::exit(2)
                 }
             };
-            let code = driver::run_check(s, &tier, emit.as_deref());
+            // a panic of the driver itself (e.g. the binary was replaced while it ran and no
+            // worker can be spawned any more) is a machinery failure, never a verdict
+            let code = match std::panic::catch_unwind(std::panic::AssertUnwindSafe(|| driver::run_check(s, &tier, emit.as_deref()))) {
+                Ok(c) => c,
+                Err(_) => {
+                    eprintln!("MACHINERY: the driver panicked");
+                    2
+                }
+            };
             std::process::exit(code);
         }
         "trace" => {
